@@ -13,6 +13,7 @@
 
 #include "clang/AST/ASTConsumer.h"
 #include "clang/AST/ASTContext.h"
+#include "clang/AST/Attr.h"
 #include "clang/AST/ParentMap.h"
 #include "clang/AST/RecursiveASTVisitor.h"
 #include "clang/Analysis/CFG.h"
@@ -387,6 +388,16 @@ struct Extractor : public RecursiveASTVisitor<Extractor> {
       o["name"] = funcName(FD);
       if (auto* MD = dyn_cast<CXXMethodDecl>(FD))
         if (MD->isVirtual()) o["virt"] = true;
+      // printf-like callee: 0-based index of the format argument (format attribute, incl. the
+      // implicit ones of the libc builtins), or for a variadic callee the last named parameter
+      // when that is a `const char*`
+      if (FD->isVariadic()) {
+        o["variadic"] = (int64_t)FD->getNumParams();
+        for (const auto* FA : FD->specific_attrs<FormatAttr>()) {
+          if (FA->getType() && FA->getType()->getName() == "printf")
+            o["fmt"] = (int64_t)FA->getFormatIdx() - 1 - (isa<CXXMethodDecl>(FD) ? 1 : 0);
+        }
+      }
     } else {
       o["fn"] = nullptr;
       o["callee"] = desc(CE->getCallee(), depth + 1);
